@@ -30,7 +30,7 @@ def _ulp(x: float) -> float:
     return float(np.spacing(abs(x))) if x != 0 else 5e-324
 
 
-def grid_problems(bins: np.ndarray, width: Optional[float]) -> List[str]:
+def grid_problems(bins: np.ndarray, width: Optional[float], shift: float = 0.0) -> List[str]:
     probs = []
     if len(bins) == 0:
         return probs
@@ -40,7 +40,9 @@ def grid_problems(bins: np.ndarray, width: Optional[float]) -> List[str]:
         probs.append("bin with left >= right")
     if width is not None:
         # tolerance in ulps of the largest edge magnitude of the whole grid (edges are origin + k*width in floating point)
-        mag = float(np.max(np.abs(bins)))
+        # edges are k*width + shift in floating point: the rounding is that of the larger of |k*width| and |shift|, which may
+        # exceed the edge itself when the two nearly cancel (e.g. shift 1.7, width 0.1, edge -0.1)
+        mag = float(np.max(np.abs(bins))) + abs(float(shift or 0.0))
         for l, r in bins:
             tol = 4 * _ulp(mag) + 4 * _ulp(width)
             if abs((r - l) - width) > tol:
@@ -50,7 +52,8 @@ def grid_problems(bins: np.ndarray, width: Optional[float]) -> List[str]:
 
 
 def check_adaptive_step(rec: core.Recorder, h, pre: Dict[str, Any], rows: np.ndarray, weights: Optional[np.ndarray], *,
-                        op: str, widths: Optional[Sequence[Optional[float]]] = None, detail=None, find_bin=True) -> bool:
+                        op: str, widths: Optional[Sequence[Optional[float]]] = None, detail=None, find_bin=True,
+                        shifts: Optional[Sequence[float]] = None) -> bool:
     """rows: (n, ndim) float array of the batch (NaN rows still in place), weights aligned or None."""
     rec.mon(MON)
     ok = True
@@ -83,7 +86,7 @@ def check_adaptive_step(rec: core.Recorder, h, pre: Dict[str, Any], rows: np.nda
     for ax in range(nd):
         b0, b1 = bins0[ax], bins1[ax]
         w = None if widths is None else widths[ax]
-        gp = grid_problems(b1, w)
+        gp = grid_problems(b1, w, 0.0 if shifts is None else shifts[ax])
         if gp:
             fail("bins left the fixed-width grid", ["bins"], axis=ax, problems=gp, bins=b1[:8])
         if len(b0):
@@ -246,10 +249,14 @@ class AdaptiveStepMonitor(Handler):
         if snap.wellformed_problems(h):
             call.bag["skip4"] = "illformed_before"
             return
-        widths = []
+        widths, shifts = [], []
         for b in h.binnings:
             widths.append(float(getattr(b, "bin_width", None)) if getattr(b, "bin_width", None) is not None else None)
-        call.bag.update(pre4=snap.snapshot(h, with_stats=False), rows4=rows.copy(), w4=None if weights is None else weights.copy(), widths4=widths)
+            try:
+                shifts.append(float(b.to_dict().get("bin_shift") or 0.0))
+            except Exception:
+                shifts.append(0.0)
+        call.bag.update(shifts4=shifts, pre4=snap.snapshot(h, with_stats=False), rows4=rows.copy(), w4=None if weights is None else weights.copy(), widths4=widths)
 
     def after(self, call: Call):
         rec = core.recorder()
@@ -261,7 +268,7 @@ class AdaptiveStepMonitor(Handler):
             rec.skip(self.name, "raised")
             return
         b = call.bag
-        check_adaptive_step(rec, call.self, b["pre4"], b["rows4"], b["w4"], op=call.qualname + "(passive)", widths=b["widths4"])
+        check_adaptive_step(rec, call.self, b["pre4"], b["rows4"], b["w4"], op=call.qualname + "(passive)", widths=b["widths4"], shifts=b.get("shifts4"))
 
 
 def attach_adaptive_monitors():
